@@ -87,8 +87,11 @@ def run_job(binary, wd, name, args, timeout=3000):
     p = subprocess.run([binary] + args + ['-out', trace], stdout=subprocess.PIPE, stderr=subprocess.STDOUT, text=True, timeout=timeout)
     t1 = time.time()
     out = {'name': name, 'runs': 0, 'lines': 0, 'conf_fail': [], 'spec_fail': [], 'sites': {}, 'enum': [], 'harness_rc': p.returncode,
-           'harness_out': p.stdout[-2000:], 'statuses': {}, 'distinct': 0, 'diverged': 0, 'go_s': t1 - t0}
-    if p.returncode != 0:
+           'harness_out': p.stdout[-2000:], 'statuses': {}, 'distinct': 0, 'diverged': 0, 'go_s': t1 - t0, 'stuck': False}
+    if p.returncode == 3:
+        out['stuck'] = True      # the harness stopped after a run in which an actor never reached a schedule point
+        out['harness_rc'] = 0
+    elif p.returncode != 0:
         return out
     with open(res, 'w') as o:
         q = subprocess.run([common.DRIVER, 'life', trace], stdout=o, stderr=subprocess.PIPE, text=True, timeout=timeout)
@@ -154,7 +157,7 @@ def plan(tier, seed, escalate=False):
     if tier == 'thorough':
         bound, maxruns, nsample, walks, wbound = 3, 40000, 480, 400, 2
     else:
-        bound, maxruns, nsample, walks, wbound = 2, 2500, 96, 60, 2
+        bound, maxruns, nsample, walks, wbound = 2, 1200, 64, 30, 2
     if escalate:
         maxruns *= 3; walks *= 3
     jobs = []
@@ -318,6 +321,10 @@ def check(rep, prop, modules, assumptions):
         f = min(conf, key=lambda x: len(x['sched']))
         rep.violation('trace conformance Netpoll.Conn.Life <-> code no longer checks (%d of %d runs) and no %s-violating schedule was found in the widened search: %s'
                       % (len(conf), runs, prop, f['verdict'].split('conf: ', 1)[1][:600]), _replay_lines(f, 'correspondence break (model step refused / result differs)'), no_input=True)
+    elif any(r.get('stuck') for r in results):
+        r = [r for r in results if r.get('stuck')][0]
+        rep.violation('an actor did not reach a schedule point within the watchdog (blocking operation outside the instrumentation, or a deadlock) in shard %s; no %s-violating schedule found' % (r['name'], prop),
+                      ['# see work/%s/%s.trace (last run)' % (prop, r['name'])], no_input=True)
     elif proof_broken:
         rep.violation('proof obligation broken and no failing schedule found in %d runs: %s' % (runs, proof_broken),
                       ['# ' + l for l in proof_broken.split('\n')], no_input=True)
